@@ -32,6 +32,11 @@ def sim(module, cfg, num, depth, kind, field='ops', **kw):
 
 PROPS['C15'] = dict(
     trace=dict(module='Trace_TailBitmap', cfg='Trace_TailBitmap.cfg'),
+    bindings=[dict(drv='C15', trace=dict(module='Trace_TailBitmap', cfg='Trace_TailBitmap.cfg'),
+                   gen=dict(quick=[sim('Gen_TailBitmap', 'Gen_TailBitmap_q.cfg', 30, 30, 'tb', shards=8)],
+                            thorough=[sim('Gen_TailBitmap', 'Gen_TailBitmap.cfg', 250, 40, 'tb', shards=16)])),
+              # positions 2^31 bits and more beyond the Offset, as pairs (thorough tier only: 256 MiB and more per history)
+              dict(drv='C15f', trace=dict(module='Trace_TailBitmapFar', cfg='Trace_TailBitmapFar.cfg'), shards=dict(quick=1, thorough=2))],
     mc=dict(quick=[mc('MC_TailBitmap', 'MC_TailBitmap_q.cfg', expect_min_distinct=10000)],
             thorough=[mc('MC_TailBitmap', 'MC_TailBitmap.cfg', expect_min_distinct=300000)]),
     tlaps=dict(quick=[dict(module='TailBitmapProof')], thorough=[dict(module='TailBitmapProof', refute='TailBitmapProofBad')]),
@@ -40,13 +45,12 @@ PROPS['C15'] = dict(
                               refute=[('IndInit', 'BadNeverMoves', 1)])],
                   thorough=[dict(module='TailBitmapInd', cinit='CInitT', runs=[('Init', 'IndInv', 0), ('IndInit', 'IndInv', 1), ('IndInit', 'Property', 0)],
                                  refute=[('IndInit', 'BadNeverMoves', 1), ('IndInit', 'BadNoBits', 1)])]),
-    gen=dict(quick=[sim('Gen_TailBitmap', 'Gen_TailBitmap_q.cfg', 30, 30, 'tb', shards=8)],
-             thorough=[sim('Gen_TailBitmap', 'Gen_TailBitmap.cfg', 250, 40, 'tb', shards=16)]),
     rule='a case is one TailBitmap history (New, then Set/Compact/Get/Get1 calls): structured fills of 1-5 words in six orders, '
          'layout histories (8-30 words full/partial/empty set in a seeded word order, word 0 completed last so that one Compact walks a long run, then growth by several words and the holes closed one by one), '
          'TLC-simulated histories of macro-steps (Gen_TailBitmap: fill a word, single bits around offset/end/far beyond, close a hole, Compact), seeded random histories of 60-360 calls, '
          '4 (thorough 16) histories crossing the 1024-word reclaim threshold with already-full words and live bits behind the crossing word, far-bit-first histories; '
          'every call is one trace event with the projected state (Offset, len(Words), stored 1-bits) judged by Trace_TailBitmap; '
+         'thorough tier: histories with Sets and probes 2^31 .. 2^32 + 70 bits beyond the Offset (positions as pairs, Trace_TailBitmapFar); '
          'distinct = distinct operation sequences (sha256 of the inputs), non-trivial = at least one call after New',
     assumptions=TRUST + ['Get/Get1 are probed only at indexes up to the highest index ever set (the property\'s own domain)'],
 )
